@@ -256,8 +256,26 @@ func (Prop) Shrink(ci interface{}) []interface{} {
 
 func strs(l []string) []string { return append([]string{}, l...) }
 
-// apply performs one chain method with freshly built argument values.
-func apply(db *gorm.DB, st Step, handles []*gorm.DB) *gorm.DB {
+// callerSlices are column lists the "caller" of a history defines once and
+// passes to several chains (like `cols := make([]string, 0, 8)` in user code):
+// one slice with spare capacity per distinct content.  A replay in isolation
+// has its own.
+type callerSlices map[string][]string
+
+func (cs callerSlices) get(l []string) []string {
+	k := strings.Join(l, ",")
+	if v, ok := cs[k]; ok {
+		return v
+	}
+	v := make([]string, len(l), len(l)+6)
+	copy(v, l)
+	cs[k] = v
+	return v
+}
+
+// apply performs one chain method with freshly built argument values (except
+// the caller-owned column lists of cs).
+func apply(db *gorm.DB, st Step, handles []*gorm.DB, cs callerSlices) *gorm.DB {
 	cond := func(f func(query interface{}, args ...interface{}) *gorm.DB) *gorm.DB {
 		switch st.V {
 		case 0:
@@ -298,8 +316,12 @@ func apply(db *gorm.DB, st Step, handles []*gorm.DB) *gorm.DB {
 		}
 		return db.Or(h)
 	case "select":
-		if st.V%2 == 0 {
+		if st.V%3 == 0 {
 			return db.Select(strs(st.L))
+		}
+		if st.V%3 == 1 && cs != nil {
+			// a caller-owned list plus one more column
+			return db.Select(cs.get(st.L[:1]), st.S)
 		}
 		args := []interface{}{}
 		for _, x := range st.L[1:] {
@@ -644,6 +666,7 @@ func (c *Case) history() (map[int]obs, []string, error) {
 	done := make([]bool, n)
 	out := map[int]obs{}
 	var trace []string
+	cs := callerSlices{}
 	defer func() { rollbackAll(handles, c.Chains) }()
 	advance := func(i int) bool {
 		ch := c.Chains[i]
@@ -660,7 +683,7 @@ func (c *Case) history() (map[int]obs, []string, error) {
 		}
 		trace = append(trace, fmt.Sprint(i))
 		if pos[i] < len(ch.Steps) {
-			cur[i] = apply(cur[i], ch.Steps[pos[i]], handles)
+			cur[i] = apply(cur[i], ch.Steps[pos[i]], handles, cs)
 			pos[i]++
 			return true
 		}
@@ -701,6 +724,7 @@ func (c *Case) isolated(i int) (obs, error) {
 	handles := make([]*gorm.DB, n+1)
 	handles[0] = e.DB
 	defer func() { rollbackAll(handles, c.Chains) }()
+	cs := callerSlices{}
 	var build func(h int) *gorm.DB
 	run := func(ch Chain) *gorm.DB {
 		db := build(ch.From)
@@ -708,7 +732,7 @@ func (c *Case) isolated(i int) (obs, error) {
 			if st.M == "where_sub" || st.M == "where_group" {
 				build(st.H)
 			}
-			db = apply(db, st, handles)
+			db = apply(db, st, handles, cs)
 		}
 		return db
 	}
